@@ -10,6 +10,7 @@ package nbio
 import (
 	"encoding/binary"
 	"errors"
+	"io"
 	"net"
 	"runtime"
 	"sync"
@@ -145,6 +146,11 @@ type Conn struct {
 
 	readEvents int32
 
+	// set by the poller when a hang-up (EPOLLRDHUP/HUP/ERR) arrived together
+	// with a reading event while reading is done by a read task: the task
+	// closes the connection once it has read what the peer sent before.
+	hup int32
+
 	dataHandler func(c *Conn, data []byte)
 
 	onConnected func(c *Conn, err error)
@@ -167,6 +173,7 @@ func (c *Conn) AsyncRead() {
 	// be re-dispatched before this reading event has been handled and set again.
 	if g.isOneshot {
 		g.IOExecute(func(pbuf *[]byte) {
+			hup := atomic.LoadInt32(&c.hup) != 0
 			for i := 0; i < g.MaxConnReadTimesPerEventLoop; i++ {
 				bufLen := len(*pbuf)
 				rc, n, err := c.ReadAndGetConn(pbuf)
@@ -188,6 +195,10 @@ func (c *Conn) AsyncRead() {
 				if n < bufLen && c.isStream() {
 					break
 				}
+			}
+			if hup {
+				_ = c.closeWithError(io.EOF)
+				return
 			}
 			c.ResetPollerEvent()
 		})
@@ -214,6 +225,9 @@ func (c *Conn) AsyncRead() {
 
 	g.IOExecute(func(pBuf *[]byte) {
 		for {
+			// A hang-up seen before this round started: everything the peer
+			// sent is in the socket now, close after reading it.
+			hup := atomic.LoadInt32(&c.hup) != 0
 			// try to read all the data available.
 			for i := 0; i < g.MaxConnReadTimesPerEventLoop; i++ {
 				bufLen := len(*pBuf)
@@ -236,6 +250,10 @@ func (c *Conn) AsyncRead() {
 				if n < bufLen && c.isStream() {
 					break
 				}
+			}
+			if hup {
+				_ = c.closeWithError(io.EOF)
+				return
 			}
 			if atomic.AddInt32(&c.readEvents, -1) == 0 {
 				return
